@@ -699,7 +699,7 @@ func genValidAuthn(t *rapid.T, spec world.Spec, sp int, host string) spsim.Authn
 			c.NotBefore = spsim.Rel(-rapid.SampledFrom([]int{0, 0, 5, 60, 3600, 86400 * 30}).Draw(t, "nbage"), rapid.IntRange(0, 9).Draw(t, "nbfrac"), "")
 		}
 		if rapid.Bool().Draw(t, "noa") {
-			c.NotOnOrAfter = spsim.Rel(rapid.SampledFrom([]int{10, 60, 3600, 86400 * 365}).Draw(t, "noaage"), rapid.IntRange(0, 9).Draw(t, "noafrac"), "")
+			c.NotOnOrAfter = spsim.Rel(rapid.SampledFrom([]int{60, 300, 3600, 86400 * 365}).Draw(t, "noaage"), rapid.IntRange(0, 9).Draw(t, "noafrac"), "")
 		}
 		r.Conditions = c
 	}
